@@ -799,6 +799,7 @@ pub struct Plan {
     pub codec_random: usize,    // random candidate strings for the decoders
     pub div_cases: usize,       // extra division / sqrt / legendre operands
     pub split_cases: usize,
+    pub gcd_sweep: usize,
     pub profile: String,
 }
 
@@ -1079,6 +1080,25 @@ fn run_div<F: FieldApi>(tr: &mut Trace, rng: &mut Rng, plan: &Plan) {
             m.legendre(7);
             if k % 16 == 0 { ok = m.raw(1, &random_raw(rng, &q, F::RAW_LEN), v); }
         }
+    }
+    // GCD-length sweep: y = t*2^s for every small odd t and the top shift counts
+    // (and q - y): the inputs on which a binary GCD needs its largest number of
+    // iterations, where a short iteration budget loses the last sign updates
+    let mut m = Mach::<F>::new(tr);
+    let mut ok = m.cst(2, "ONE");
+    let mut t = 1u32;
+    while (t as usize) < plan.gcd_sweep {
+        let tb = 32 - t.leading_zeros() as usize;
+        for ds in 0..3usize {
+            if bits < tb + ds { continue; }
+            let y0 = BigUint::from(t) << (bits - tb - ds);
+            for y in [y0.clone() % &q, &q - (y0 % &q)] {
+                if !ok { m = Mach::<F>::new(tr); ok = m.cst(2, "ONE"); }
+                ok = ok && m.raw(0, &to_le(&y, F::RAW_LEN), t);
+                if ok { m.legendre(0); ok = m.bin("div", 4, 2, 0, t); }
+            }
+        }
+        t += 2;
     }
     // batch inversion: slice lengths around the internal block size, zeros inside
     for len in [0usize, 1, 2, 3, 7, 8, 9, 10, 11] {
